@@ -2,4 +2,4 @@ CONSTANTS
   MaxLen = 6
 INIT Init
 NEXT Next
-INVARIANT DesignOkOnSingleToken
+INVARIANT DesignOk
